@@ -357,6 +357,43 @@ def boundary_roots():
 
 STATIC_VARIANTS = ("block", "const")
 
+# ---- scale letters (8th field of a root spec): the same payload at another legal magnitude ----------------
+#   "1e-6" "1e-9" "1e6"  every value multiplied by that factor (conditioning unchanged)
+#   "offset1e6"          a common offset of 1e6 x the leading standard deviation added to every sample
+#                        (centred models only: about the origin such data is ill conditioned)
+SCALES = {"1e-6": 1e-6, "1e-9": 1e-9, "1e6": 1e6}
+OFFSET_RATIO = 1e6
+# an offset of R standard deviations costs log10(R) digits in the centred data itself; the reference, computed in
+# float64 from the same payload, centres the same numbers, so the ordinary tolerances hold against it (worst error
+# observed 5e-15); only the comparison with the model of the un-offset payload is widened by R
+NEAR_TIE = 1e-6  # variance fractions this fraction of a gap away from a cumulative ratio (rounding is ~1e-12 of it)
+
+
+def scale_roots():
+    """a small subset of the data letters re-expressed at other magnitudes."""
+    out = []
+    for tag in ("1e-6", "1e-9", "1e6"):
+        for n, d in ((3, 5), (4, 4), (6, 3)):
+            for c in (1, 0):
+                out.append(("vec", n, d, c, "full", "array", "f64", tag))
+        for c in (1, 0):
+            out.append(("pc", 4, 6, c, "full", "list", "f64", tag))
+            out.append(("img", 6, 4, c, "full", "list", "f64", tag))
+    for n, d in ((3, 5), (4, 4), (6, 3)):
+        out.append(("vec", n, d, 1, "full", "array", "f64", "offset1e6"))
+    out += [("pc", 4, 6, 1, "full", "list", "f64", "offset1e6"), ("img", 6, 4, 1, "full", "iter", "f64", "offset1e6")]
+    # one large-size letter: a long sample axis (the long feature axis is the block-size letter d = 2B)
+    out += [("vec", 2000, 3, 1, "block", "array"), ("vec", 2000, 3, 0, "block", "array-copy")]
+    return out
+
+
+def rescale(X, tag, lam0):
+    if tag in SCALES:
+        return X * SCALES[tag]
+    if tag == "offset1e6":
+        return X + OFFSET_RATIO * np.sqrt(lam0) * (1.0 + 0.25 * np.arange(X.shape[1]) / X.shape[1])
+    return X
+
 
 def form_roots():
     """data letters in other argument forms: cross products filtered by `legal`."""
@@ -421,6 +458,7 @@ class C10(Check):
         out += [("pc", 8, 6, 1, "full", "iter"), ("img", 3, 4, 0, "full", "iter"), ("mimg", 6, 6, 1, "full", "iter"), ("pc", 4, 6, 1, "full", "list-copy")]
         out += form_roots()
         out += boundary_roots()
+        out += scale_roots()
         if self.tier == "thorough":
             more = [(2, 2), (3, 1), (2, 1), (3, 3), (7, 9), (9, 7), (8, 8), (10, 4), (4, 10), (9, 10), (11, 10)]
             for n, d in more:
@@ -441,6 +479,10 @@ class C10(Check):
         form = root[6] if len(root) > 6 else "f64"
         tol = F32_TOL if form == "f32" else F64_TOL
         X = gen_data(n, d, bool(centre), variant, self.seed, form)
+        stag = root[7] if len(root) > 7 else "1"
+        X0 = X
+        if stag != "1":
+            X = rescale(X0, stag, reference(X0, bool(centre))[1][0])
         mean, lam, vt = reference(X, bool(centre))
         model = construct(root, X)
         K = len(lam)
@@ -463,6 +505,11 @@ class C10(Check):
                     h -= 0.004
                     g = float(ctor(h))
                 fmap["%s:%r" % (skind, f)] = (h, g)
+        # near ties: a fraction NEAR_TIE of a gap below / above the first and the last interior cumulative ratio
+        if K >= 2 and form == "f64" and stag == "1":
+            for i in sorted(set([0, K - 2])):
+                fmap["t%d-" % i] = float(cum[i] - NEAR_TIE * (cum[i] - (cum[i - 1] if i else 0.0)))
+                fmap["t%d+" % i] = float(cum[i] + NEAR_TIE * (cum[i + 1] - cum[i]))
         # boundary letters: just below and just above every cumulative variance ratio of the original spectrum
         # (one letter per case split of the fraction rule; they stay meaningful after trimming, where a rule
         # that normalised by the kept instead of the original variance would count differently)
@@ -479,6 +526,9 @@ class C10(Check):
             "root": root,
             "kind": kind,
             "form": form,
+            "stag": stag,
+            "X0": X0,
+            "reduced": form != "f64" or stag != "1",
             "tol": tol,
             "X": X,
             "centre": bool(centre),
@@ -510,7 +560,7 @@ class C10(Check):
         out = []
         if st.get("root") and st["root"][4] in STATIC_VARIANTS:
             return out  # size / value boundary letters: static identities only
-        if self.tier == "quick" and st.get("form", "f64") != "f64" and level >= 2:
+        if self.tier == "quick" and st.get("reduced") and level >= 2:
             # data letters in other argument forms: every (kept, active) state is reached and verified
             # (two letters); the third level is left to the float64 letters and to the thorough tier
             return out
@@ -518,7 +568,7 @@ class C10(Check):
             out.append(("act", k))
         # the same values given as other scalar forms (the scalar never meets the data: in the quick tier
         # they are paired with the float64 data letters only)
-        scalar_forms = self.tier != "quick" or st.get("form", "f64") == "f64"
+        scalar_forms = self.tier != "quick" or not st.get("reduced")
         if scalar_forms:
             for k in sorted(set([0, 1, K, K + 1])):
                 out.append(("actnp", k))
@@ -534,6 +584,9 @@ class C10(Check):
         for f in F_LETTERS + F_INVALID:
             out.append(("actf", f))
         bounds = ["b%d%s" % (i, sgn) for i in range(K) for sgn in "-+" if "b%d%s" % (i, sgn) in st["fmap"]]
+        if st.get("root") and st["root"][0] == "vec" and st["root"][5] == "array":
+            # near-tie fractions on a small subset of the data letters
+            bounds += ["t%d%s" % (i, sgn) for i in range(K) for sgn in "-+" if "t%d%s" % (i, sgn) in st["fmap"]]
         for b in bounds:
             out.append(("actf", b))
         out.append(("trim", None))
@@ -629,6 +682,8 @@ class C10(Check):
     def apply(self, st, op, verify=True):
         kind = op[0]
         fails = []
+        if isinstance(op[1], str) and op[1].startswith("t"):
+            self.note("%s:near-tie" % kind)
         allowed = self._expect(st, op)
         before = observe(st["m"]) if verify else None
         old = (st["kept"], st["active"])
@@ -711,6 +766,10 @@ class C10(Check):
             self.note("boundary:two-samples")
         if root[5] in ("list-ns-more", "iter-more"):
             self.note("boundary:more-samples-than-n_samples")
+        if n >= 1000:
+            self.note("boundary:many-samples")
+        if st["stag"] != "1":
+            self.note("scale:%s-%s-%s" % (st["stag"], "object" if kind != "vec" else "vector", "cov" if d < n else "gram"))
         if root[4] == "const":
             return self._zero_variance(st)
         if m.n_components != st["K"]:
@@ -726,6 +785,8 @@ class C10(Check):
             fails.extend(self._identities(st, "build"))
         if not fails:
             fails.extend(self._fresh(st, "build"))
+        if not fails and st["stag"] != "1":
+            fails.extend(self._equivariance(st, root))
         if not fails:
             # max_n_components one beyond the number of components: nothing to trim
             beyond = construct(root, st["X"], max_n=int(st["K"]) + 1)
@@ -734,6 +795,28 @@ class C10(Check):
             if diff:
                 fails.append(Failure("build", "max-n-components-beyond-count", "built with max_n_components=K+1 differs from the plain build at %s" % diff))
         return fails
+
+    def _equivariance(self, st, root):
+        """the model of the rescaled payload is the rescaled model of the payload: eigenvalues x s^2, mean x s,
+        same axes (a common offset: same eigenvalues and axes, mean + offset)."""
+        m = st["m"]
+        base = construct(root[:7], st["X0"])
+        fails = []
+        if base.n_components != m.n_components:
+            return [Failure("build", "scale-equivariance", "%d components at scale %s, %d for the same payload at scale 1" % (m.n_components, st["stag"], base.n_components))]
+        s = SCALES.get(st["stag"], 1.0)
+        wide = OFFSET_RATIO if st["stag"] == "offset1e6" else 1.0
+        tol = {"eig": st["tol"]["eig"] * wide, "vec": st["tol"]["vec"] * wide}
+        e_eig = np.max(np.abs(np.asarray(m.eigenvalues, float) / s ** 2 - np.asarray(base.eigenvalues, float)) / np.asarray(base.eigenvalues, float))
+        e_ax = np.max(np.abs(np.abs(np.sum(np.asarray(m.components, float) * np.asarray(base.components, float), axis=1)) - 1.0))
+        side = []
+        mv, mv0 = Api(st["kind"], m).mean(side), Api(st["kind"], base).mean(side)
+        shift = (st["X"][0] - st["X0"][0]) if st["stag"] == "offset1e6" and st["centre"] else 0.0
+        e_mean = np.max(np.abs(mv - (mv0 * s + shift))) / st["scale"]
+        for clause, err, t in (("eigenvalues", e_eig, tol["eig"]), ("axes", e_ax, tol["vec"]), ("mean", e_mean, 1e-12)):
+            if not err <= t:
+                fails.append(Failure("build", "scale-equivariance-" + clause, "scale letter %s: error %.3g > %.3g against the model of the same payload at scale 1" % (st["stag"], err, t)))
+        return fails + side
 
     def _zero_variance(self, st):
         """every sample equal: no direction of positive variance, the mean is the sample, everything
@@ -840,20 +923,24 @@ class C10(Check):
         else:
             self.note("identity:on-proper-prefix")
         # weights round trip
-        wl = [np.eye(a)[i] for i in range(a)]
-        mixed = np.array([(-1.0) ** j * (0.5 + 0.3 * j) for j in range(a)])
-        wl += [mixed, st["wrand"][:a] * np.sqrt(lam[0])]
+        # (weight letters are in units of the leading standard deviation, errors relative to the weights)
+        sd = float(np.sqrt(lam[0]))
+        wl = [sd * np.eye(a)[i] for i in range(a)]
+        mixed = sd * np.array([(-1.0) ** j * (0.5 + 0.3 * j) for j in range(a)])
+        wl += [mixed, st["wrand"][:a] * sd]
         err = 0.0
         for w in wl:
-            err = max(err, np.max(np.abs(api.project(api.instance(w, side)) - w)) / max(1.0, np.max(np.abs(w))))
+            inst = api.instance(w, side)
+            # relative to the numbers involved: the weights or, when the mean dominates, the instance itself
+            err = max(err, np.max(np.abs(api.project(inst) - w)) / max(sd, np.max(np.abs(w)), np.max(np.abs(inst))))
         out.append(("project-instance-returns-weights", err, TOL_VEC, "%d weight letters" % len(wl)))
         if a >= 2:
             w = mixed[: a - 1]
             got = api.project(api.instance(w, side))
-            out.append(("project-instance-returns-weights-short", np.max(np.abs(got - np.concatenate([w, [0.0]]))), TOL_VEC, "short weight vector %r gave %r" % (w, got)))
+            out.append(("project-instance-returns-weights-short", np.max(np.abs(got - np.concatenate([w, [0.0]]))) / max(sd, scale), TOL_VEC, "short weight vector %r gave %r" % (w, got)))
         # boundary: no weight at all -> the mean, which projects to zero weights
         e0 = api.instance(np.zeros(0), side)
-        out.append(("empty-weights-give-the-mean", max(np.max(np.abs(e0 - mean)) / scale, float(np.max(np.abs(api.project(e0))))), TOL_VEC, "instance([])"))
+        out.append(("empty-weights-give-the-mean", max(np.max(np.abs(e0 - mean)) / scale, float(np.max(np.abs(api.project(e0)))) / max(sd, scale)), TOL_VEC, "instance([])"))
         self.note("boundary:empty-weights")
         # instance is mean + w C
         w = mixed
@@ -917,7 +1004,7 @@ class C10(Check):
         for form in WEIGHT_FORMS:
             got = inst(as_form(w, form))
             err = np.max(np.abs(got - ref_i)) / max(1.0, st["scale"])
-            back = np.max(np.abs(flat(proj(got)) - w)) / 4.0
+            back = np.max(np.abs(flat(proj(got)) - w)) / (4.0 * max(1.0, st["scale"]))
             out.append(("weights-form-%s" % form, max(err, back), tol, "instance(weights as %s) vs instance(float64 weights); project(...) vs the weights" % form))
             self.note("argform:weights-%s" % form)
         ref = [flat(f(x.copy())) for f in (proj, rec, pout)]
@@ -1003,6 +1090,10 @@ class C10(Check):
         for where in ("below", "at", "above", "at-twice"):
             need += ["boundary:block-size-%s-inplace-vector" % where, "boundary:block-size-%s-copy-vector" % where, "boundary:block-size-%s-inplace-object" % where]
         need += ["boundary:one-feature", "boundary:two-samples", "boundary:more-samples-than-n_samples", "boundary:zero-variance-data", "boundary:empty-weights", "boundary:max_n_components-beyond", "static:K=1"]
+        # scale letters
+        for tag in SCALES:
+            need += ["scale:%s-vector-gram" % tag, "scale:%s-vector-cov" % tag, "scale:%s-object-gram" % tag, "scale:%s-object-cov" % tag]
+        need += ["scale:offset1e6-vector-gram", "scale:offset1e6-vector-cov", "scale:offset1e6-object-gram", "scale:offset1e6-object-cov", "boundary:many-samples", "actf:near-tie", "trimf:near-tie"]
         # argument forms: every data form the tree accepts, every weight / vector / scalar form
         for form in INT_FORMS:
             need.append("form:%s-vector-centred" % form)
@@ -1059,6 +1150,10 @@ class C10(Check):
             "size boundaries: d = B-1, B, B+1, 2B for the block size B = %d of dot_inplace_right (n = 2, 3; static identities only), d = 1, n = 2, n = d = 2, "
             "one sample more than n_samples, zero-variance data (no component), empty weight vector, max_n_components = K+1; n = 1, n = 0 and d = 0 are "
             "not letters (no sample variance / refused with ValueError)" % block_size(),
+            "scale letters on a subset of the data letters: every value x 1e-6, x 1e-9, x 1e6; a common offset of 1e6 leading standard deviations "
+            "(centred models only; ordinary tolerances against the float64 reference, x 1e6 only in the comparison with the un-offset payload); variance "
+            "fractions %g of a gap away from a cumulative ratio; one long sample axis (n = 2000); all tolerances are relative to the data magnitude, "
+            "weights are in units of the leading standard deviation; scale equivariance against the model of the payload at scale 1" % NEAR_TIE,
             "otherwise n <= 11 samples, d <= 10 features; data in the argument forms float64 / int64 / int32 / int16 / uint8 / bool / float32 ndarrays, "
             "Fortran-ordered, non-contiguous and read-only arrays, lists of rows, lists of python float / int lists, tuples of samples, "
             "wherever the unchanged tree accepts the form (probed on /repo)",
